@@ -41,7 +41,7 @@ STRATA = ("plain", "stop", "req", "bad", "inj")
 
 
 def plan(tier, seed):
-    n = 3200 if tier == "quick" else 50000
+    n = 3200 if tier == "quick" else 80000
     shards = 16 if tier == "quick" else 50
     return [{"seed": seed * 1000003 + i, "n": n // shards, "max_depth": 3 if tier == "quick" else 4}
             for i in range(shards)]
